@@ -1,6 +1,6 @@
 #!/bin/bash
 # usage: tools/seedtable.sh [ids...] : which checks catch which seeded change (writes seeded/<id>/detection.txt)
-declare -A PROPS=( [C01-A]="C01 C16" [C01-B]="C01" [C03-A]="C03 C08" [C03-B]="C03 C08" [C03-C]="C03" [C04-C]="C04" [C04-D]="C04 C08" [C05-A]="C05" [C05-B]="C05" [C05-C]="C05" [C06-A]="C06" [C06-B]="C06" [C10-A]="C10" [C10-B]="C10 C16" [C10-C]="C10" [C11-A]="C11" [C11-B]="C11" [C11-C]="C11" [C13-A]="C13 C12" [C13-B]="C13 C12" [C13-C]="C13 C12" [C13-D]="C13" [C16-A]="C16" [C16-B]="C16" [C17-A]="C17" [C17-B]="C17" [C18-A]="C18" [C18-B]="C18" [C18-C]="C18" [C02-A]="C02" [C02-B]="C02 C01" [C07-C]="C07" [C07-D]="C07" [C08-A]="C08 C07" [C08-B]="C08" [C12-C]="C12" [C12-D]="C12" [C14-A]="C14" [C14-B]="C14" [C20-C]="C20" [C20-D]="C20" [C01-C]="C01" [C01-D]="C01 C05" [C01-E]="C01" [C05-D]="C05" [C05-E]="C05" [C03-D]="C03" [C03-E]="C03" [C13-E]="C13 C12" [C17-C]="C17" [C06-C]="C06" [C10-D]="C10" [C10-E]="C10" [C10-F]="C10" [C16-C]="C16" [C16-D]="C16" [C04-E]="C04" [C04-F]="C04" [C08-C]="C08 C03" [C08-D]="C08" [C02-C]="C02 C03" [C11-D]="C11 C16" [C11-E]="C11" [C11-F]="C11" [C12-E]="C12 C13" [C12-F]="C12" [C18-D]="C18" [C18-E]="C18" [C14-C]="C14 C17" [C20-E]="C20" [C17-D]="C17 C06" [C10-G]="C10" [C10-H]="C10" [C06-D]="C06" [C08-E]="C08 C03" [C08-F]="C08" [C01-F]="C01" [C01-G]="C01" [C05-F]="C05" [C05-G]="C05" [C16-E]="C16 C10" [C13-F]="C13 C12" [C13-G]="C13 C20" [C07-E]="C07 C06" [C03-F]="C03 C02 C04" [C07-F]="C07 C08" )
+declare -A PROPS=( [C01-A]="C01 C16" [C01-B]="C01" [C03-A]="C03 C08" [C03-B]="C03 C08" [C03-C]="C03" [C04-C]="C04" [C04-D]="C04 C08" [C05-A]="C05" [C05-B]="C05" [C05-C]="C05" [C06-A]="C06" [C06-B]="C06" [C10-A]="C10" [C10-B]="C10 C16" [C10-C]="C10" [C11-A]="C11" [C11-B]="C11" [C11-C]="C11" [C13-A]="C13 C12" [C13-B]="C13 C12" [C13-C]="C13 C12" [C13-D]="C13" [C16-A]="C16" [C16-B]="C16" [C17-A]="C17" [C17-B]="C17" [C18-A]="C18" [C18-B]="C18" [C18-C]="C18" [C02-A]="C02" [C02-B]="C02 C01" [C07-C]="C07" [C07-D]="C07" [C08-A]="C08 C07" [C08-B]="C08" [C12-C]="C12" [C12-D]="C12" [C14-A]="C14" [C14-B]="C14" [C20-C]="C20" [C20-D]="C20" [C01-C]="C01" [C01-D]="C01 C05" [C01-E]="C01" [C05-D]="C05" [C05-E]="C05" [C03-D]="C03" [C03-E]="C03" [C13-E]="C13 C12" [C17-C]="C17" [C06-C]="C06" [C10-D]="C10" [C10-E]="C10" [C10-F]="C10" [C16-C]="C16" [C16-D]="C16" [C04-E]="C04" [C04-F]="C04" [C08-C]="C08 C03" [C08-D]="C08" [C02-C]="C02 C03" [C11-D]="C11 C16" [C11-E]="C11" [C11-F]="C11" [C12-E]="C12 C13" [C12-F]="C12" [C18-D]="C18" [C18-E]="C18" [C14-C]="C14 C17" [C20-E]="C20" [C17-D]="C17 C06" [C10-G]="C10" [C10-H]="C10" [C06-D]="C06" [C08-E]="C08 C03" [C08-F]="C08" [C01-F]="C01" [C01-G]="C01" [C05-F]="C05" [C05-G]="C05" [C16-E]="C16 C10" [C13-F]="C13 C12" [C13-G]="C13 C20" [C07-E]="C07 C06" [C03-F]="C03 C02 C04" [C07-F]="C07 C08" [C14-D]="C14" [C17-E]="C17" [C20-F]="C20" [C10-I]="C10" [C11-G]="C11 C10" [C18-F]="C18" )
 ids=${@:-$(ls /verif/seeded | grep -v "^_" | sort)}
 for id in $ids; do
   out=$(/verif/tools/mutcheck.sh /verif/seeded/$id/patch.diff ${PROPS[$id]} 2>&1)
